@@ -24,4 +24,4 @@ FINDINGS = []
 
 
 def run(ctx):
-    B.run_property(ctx, "C02", INVARIANTS, PROPERTIES, QUICK, THOROUGH, FINDINGS)
+    B.run_property(ctx, "C02", INVARIANTS, PROPERTIES, QUICK, THOROUGH, FINDINGS, overlap=['billing_s'])
